@@ -122,6 +122,7 @@ var harnesses = map[string]*Harness{
 			zz + "h4chain/transport_test.go": "harness/h4chain/transport_test.go",
 			zz + "h4chain/reports_test.go":   "harness/h4chain/reports_test.go",
 			zz + "h4chain/refb_test.go":      "harness/h4chain/refb_test.go",
+			zz + "h4chain/fullspec_test.go":  "harness/h4chain/fullspec_test.go",
 			zz + "pvmasm/asm.go":             "harness/pvmasm/asm.go",
 		},
 		// Go's map iteration order is a source of nondeterminism the state codec meets on every export / import:
@@ -202,7 +203,7 @@ var checks = []Check{
 		Quick:        tierCfg{budget: 150, maxRuns: 60, shrink: 100},
 		Thorough:     tierCfg{budget: 1200, shrink: 1000},
 		RunTimeoutS:  240,
-		Rule:         "one evaluation = one generated history: synthetic tiny genesis (6 trivial-seed validators - in two histories of three the staging / pending / active / previous sets hold them in different orders; 1-3 services whose identifiers come from a pool of special magnitudes and octet patterns, with storage (also entries whose state key has a chosen second octet), stored / solicited preimages incl. one blob solicited by several services; authorizer pools with duplicates, in half of the histories shared between the cores), an author-built block tree (slot gaps across epoch boundaries, tickets, preimages, disputes with real Ed25519 votes, forks), then a delivery schedule with up to 8 faults: a block mutated so that it is rejected at a chosen STF stage (header, disputes, safrole, seal/entropy, extrinsic), re-delivery of the rejected block, a child of the rejected block, a second different invalid block, restart from exported state, GetState of an unknown hash. The schedule is run twice on fresh incarnations: N2 without the blocks a clean node rejects, N1 with them; N1 must answer every valid delivery exactly like N2 (accept/reject, root, GetState) and GetState(head) must be unchanged after every rejection; the same valid sequence on two fresh nodes must give identical roots. non-trivial = at least 3 valid blocks; distinct = decision tape hash",
+		Rule:         "one evaluation = one generated history: synthetic tiny genesis (6 trivial-seed validators - in two histories of three the staging / pending / active / previous sets hold them in different orders; 1-3 services whose identifiers come from a pool of special magnitudes and octet patterns, with storage (also entries whose state key has a chosen second octet), stored / solicited preimages incl. one blob solicited by several services; one history in eight starts from a POPULOUS state: 40-300 further inert services, 40-300 storage entries and values / preimages of 4-100 KB under one service, long storage keys, judgement lists of 40-300 entries; authorizer pools with duplicates, in half of the histories shared between the cores), an author-built block tree (slot gaps across epoch boundaries, tickets, preimages, disputes with real Ed25519 votes, forks), then a delivery schedule with up to 8 faults: a block mutated so that it is rejected at a chosen STF stage (header, disputes, safrole, seal/entropy, extrinsic), re-delivery of the rejected block, a child of the rejected block, a second different invalid block, restart from exported state, GetState of an unknown hash. The schedule is run twice on fresh incarnations: N2 without the blocks a clean node rejects, N1 with them; N1 must answer every valid delivery exactly like N2 (accept/reject, root, GetState) and GetState(head) must be unchanged after every rejection; the same valid sequence on two fresh nodes must give identical roots. non-trivial = at least 3 valid blocks; distinct = decision tape hash",
 		Real:         []string{"internal/fuzz.FuzzServiceStub SetState / ImportBlock / GetState", "internal/stf.RunSTF with every stage (safrole, disputes, assurances, reports, accumulation, history, preimages, authorizations, statistics)", "internal/blockchain.ChainState commit / restore / prune, stores on the in-memory provider, leaf cache", "state codec (StateEncoder / StateKeyValsToState) and block codec on every delivery"},
 		Stub:         []string{vrfStub, "block author = harness code (fallback and ticket seals through the stand-in, real Ed25519 for disputes); it is not an oracle", "multi-node = sequential incarnations of the process-wide chain-state singleton separated by SetState"},
 		Assumptions:  []string{"the VRF is a stand-in: nothing about Bandersnatch is decided and ticket identifiers are stand-in outputs", "one chain state per process: the clean reference node and the node under test are sequential incarnations", "blocks come from the harness author: chains of 3-30 (thorough 60) blocks over several epochs with tickets, preimages, disputes (also against pending reports), assurances, guarantees (current and previous rotation, dependencies between packages) and the accumulation of the reports that become available by real PVM runs of small generated service programs (fetch, write, checkpoint, assign, transfer, forget + solicit of one preimage that thereby runs through its whole life cycle, new - services born on chain -, yield)"},
@@ -217,7 +218,7 @@ var checks = []Check{
 		Quick:        tierCfg{budget: 150, maxRuns: 60, shrink: 100},
 		Thorough:     tierCfg{budget: 1200, shrink: 1000},
 		RunTimeoutS:  240,
-		Rule:         "one evaluation = one generated history: synthetic tiny genesis (6 trivial-seed validators - in two histories of three the staging / pending / active / previous sets hold them in different orders; 1-3 services whose identifiers come from a pool of special magnitudes and octet patterns, with storage (also entries whose state key has a chosen second octet), stored / solicited preimages incl. one blob solicited by several services; authorizer pools with duplicates, in half of the histories shared between the cores), an author-built block tree (slot gaps across epoch boundaries, tickets, preimages, disputes with real Ed25519 votes, forks), every exported state (GetState after every accepted block, on fresh incarnations) is parsed back and re-serialised together with its raw entries and must give the exported key-value set; restarts: SetState with the export in a permuted key order (with or without ancestry) must return the root of the exported set and export the same set again, and the node must then continue like the node that was not restarted (C26 oracle)",
+		Rule:         "one evaluation = one generated history: synthetic tiny genesis (6 trivial-seed validators - in two histories of three the staging / pending / active / previous sets hold them in different orders; 1-3 services whose identifiers come from a pool of special magnitudes and octet patterns, with storage (also entries whose state key has a chosen second octet), stored / solicited preimages incl. one blob solicited by several services; one history in eight starts from a POPULOUS state: 40-300 further inert services, 40-300 storage entries and values / preimages of 4-100 KB under one service, long storage keys, judgement lists of 40-300 entries; authorizer pools with duplicates, in half of the histories shared between the cores), an author-built block tree (slot gaps across epoch boundaries, tickets, preimages, disputes with real Ed25519 votes, forks), every exported state (GetState after every accepted block, on fresh incarnations) is parsed back and re-serialised together with its raw entries and must give the exported key-value set; restarts: SetState with the export in a permuted key order (with or without ancestry) must return the root of the exported set and export the same set again, and the node must then continue like the node that was not restarted (C26 oracle)",
 		Real:         []string{"internal/fuzz.FuzzServiceStub SetState / ImportBlock / GetState", "internal/stf.RunSTF with every stage (safrole, disputes, assurances, reports, accumulation, history, preimages, authorizations, statistics)", "internal/blockchain.ChainState commit / restore / prune, stores on the in-memory provider, leaf cache", "state codec (StateEncoder / StateKeyValsToState) and block codec on every delivery"},
 		Stub:         []string{vrfStub, "block author = harness code (fallback and ticket seals through the stand-in, real Ed25519 for disputes); it is not an oracle", "multi-node = sequential incarnations of the process-wide chain-state singleton separated by SetState"},
 		Assumptions:  []string{"the VRF is a stand-in: nothing about Bandersnatch is decided and ticket identifiers are stand-in outputs", "one chain state per process: the clean reference node and the node under test are sequential incarnations", "blocks come from the harness author: chains of 3-30 (thorough 60) blocks over several epochs with tickets, preimages, disputes (also against pending reports), assurances, guarantees (current and previous rotation, dependencies between packages) and the accumulation of the reports that become available by real PVM runs of small generated service programs (fetch, write, checkpoint, assign, transfer, forget + solicit of one preimage that thereby runs through its whole life cycle, new - services born on chain -, yield)"},
@@ -225,14 +226,14 @@ var checks = []Check{
 		LevelNote:    "raw (unattributable) entries appear only if the parser leaves any; the comparison is on key-value sets",
 		Technique:    "deterministic simulation of the node under seeded block histories with fault injection (invalid blocks rejected at chosen STF stages, retries, children of rejected blocks, forks, restarts from exported state), reference-node and reference-model oracles, tape shrinking + fresh-process replay",
 		DesignRef:    "DESIGN.md §4 H4, Appendix A",
-		ExpectProbes: []string{"probe:export_roundtrip_checked", "probe:export_with_raw_entries", "fault:restart_from_export"},
+		ExpectProbes: []string{"probe:export_roundtrip_checked", "probe:export_with_raw_entries", "fault:restart_from_export", "probe:populous_genesis_state"},
 	},
 	{
 		Property: "C23", Harness: "h4chain", Level: "exploration",
 		Quick:        tierCfg{budget: 150, maxRuns: 60, shrink: 100},
 		Thorough:     tierCfg{budget: 1200, shrink: 1000},
 		RunTimeoutS:  240,
-		Rule:         "one evaluation = one generated history: synthetic tiny genesis (6 trivial-seed validators - in two histories of three the staging / pending / active / previous sets hold them in different orders; 1-3 services whose identifiers come from a pool of special magnitudes and octet patterns, with storage (also entries whose state key has a chosen second octet), stored / solicited preimages incl. one blob solicited by several services; authorizer pools with duplicates, in half of the histories shared between the cores), an author-built block tree (slot gaps across epoch boundaries, tickets, preimages, disputes with real Ed25519 votes, forks), for every block a fresh node accepts, the reference ticket accumulator (lowest identifiers of carried-over and new tickets, strictly increasing, at most E, reset at an epoch change) and the reference slot-sealer sequence (unchanged within an epoch; outside-in of a full accumulator when the epoch advances by one and the prior slot index is at or after the submission end; otherwise entropy-derived fallback keys) are compared with the exported state; blocks with unsorted, duplicated, over-attempt or late tickets must be rejected by a fresh node",
+		Rule:         "one evaluation = one generated history: synthetic tiny genesis (6 trivial-seed validators - in two histories of three the staging / pending / active / previous sets hold them in different orders; 1-3 services whose identifiers come from a pool of special magnitudes and octet patterns, with storage (also entries whose state key has a chosen second octet), stored / solicited preimages incl. one blob solicited by several services; one history in eight starts from a POPULOUS state: 40-300 further inert services, 40-300 storage entries and values / preimages of 4-100 KB under one service, long storage keys, judgement lists of 40-300 entries; authorizer pools with duplicates, in half of the histories shared between the cores), an author-built block tree (slot gaps across epoch boundaries, tickets, preimages, disputes with real Ed25519 votes, forks), for every block a fresh node accepts, the reference ticket accumulator (lowest identifiers of carried-over and new tickets, strictly increasing, at most E, reset at an epoch change) and the reference slot-sealer sequence (unchanged within an epoch; outside-in of a full accumulator when the epoch advances by one and the prior slot index is at or after the submission end; otherwise entropy-derived fallback keys) are compared with the exported state; blocks with unsorted, duplicated, over-attempt or late tickets must be rejected by a fresh node",
 		Real:         []string{"internal/fuzz.FuzzServiceStub SetState / ImportBlock / GetState", "internal/stf.RunSTF with every stage (safrole, disputes, assurances, reports, accumulation, history, preimages, authorizations, statistics)", "internal/blockchain.ChainState commit / restore / prune, stores on the in-memory provider, leaf cache", "state codec (StateEncoder / StateKeyValsToState) and block codec on every delivery"},
 		Stub:         []string{vrfStub, "block author = harness code (fallback and ticket seals through the stand-in, real Ed25519 for disputes); it is not an oracle", "multi-node = sequential incarnations of the process-wide chain-state singleton separated by SetState"},
 		Assumptions:  []string{"the VRF is a stand-in: nothing about Bandersnatch is decided and ticket identifiers are stand-in outputs", "one chain state per process: the clean reference node and the node under test are sequential incarnations", "blocks come from the harness author: chains of 3-30 (thorough 60) blocks over several epochs with tickets, preimages, disputes (also against pending reports), assurances, guarantees (current and previous rotation, dependencies between packages) and the accumulation of the reports that become available by real PVM runs of small generated service programs (fetch, write, checkpoint, assign, transfer, forget + solicit of one preimage that thereby runs through its whole life cycle, new - services born on chain -, yield)"},
@@ -247,7 +248,7 @@ var checks = []Check{
 		Quick:        tierCfg{budget: 150, maxRuns: 60, shrink: 100},
 		Thorough:     tierCfg{budget: 1200, shrink: 1000},
 		RunTimeoutS:  240,
-		Rule:         "one evaluation = one generated history: synthetic tiny genesis (6 trivial-seed validators - in two histories of three the staging / pending / active / previous sets hold them in different orders; 1-3 services whose identifiers come from a pool of special magnitudes and octet patterns, with storage (also entries whose state key has a chosen second octet), stored / solicited preimages incl. one blob solicited by several services; authorizer pools with duplicates, in half of the histories shared between the cores), an author-built block tree (slot gaps across epoch boundaries, tickets, preimages, disputes with real Ed25519 votes, forks), for every accepted block the reference recent-history transition (previous newest entry gets the block's parent state root; new entry with header hash, zero state root, reported packages sorted by hash and the super-peak of the Keccak mountain range after appending the commitment of the block's accumulation outputs; at most H entries, oldest dropped) and the reference range peaks are compared with the exported state",
+		Rule:         "one evaluation = one generated history: synthetic tiny genesis (6 trivial-seed validators - in two histories of three the staging / pending / active / previous sets hold them in different orders; 1-3 services whose identifiers come from a pool of special magnitudes and octet patterns, with storage (also entries whose state key has a chosen second octet), stored / solicited preimages incl. one blob solicited by several services; one history in eight starts from a POPULOUS state: 40-300 further inert services, 40-300 storage entries and values / preimages of 4-100 KB under one service, long storage keys, judgement lists of 40-300 entries; authorizer pools with duplicates, in half of the histories shared between the cores), an author-built block tree (slot gaps across epoch boundaries, tickets, preimages, disputes with real Ed25519 votes, forks), for every accepted block the reference recent-history transition (previous newest entry gets the block's parent state root; new entry with header hash, zero state root, reported packages sorted by hash and the super-peak of the Keccak mountain range after appending the commitment of the block's accumulation outputs; at most H entries, oldest dropped) and the reference range peaks are compared with the exported state",
 		Real:         []string{"internal/fuzz.FuzzServiceStub SetState / ImportBlock / GetState", "internal/stf.RunSTF with every stage (safrole, disputes, assurances, reports, accumulation, history, preimages, authorizations, statistics)", "internal/blockchain.ChainState commit / restore / prune, stores on the in-memory provider, leaf cache", "state codec (StateEncoder / StateKeyValsToState) and block codec on every delivery"},
 		Stub:         []string{vrfStub, "block author = harness code (fallback and ticket seals through the stand-in, real Ed25519 for disputes); it is not an oracle", "multi-node = sequential incarnations of the process-wide chain-state singleton separated by SetState"},
 		Assumptions:  []string{"the VRF is a stand-in: nothing about Bandersnatch is decided and ticket identifiers are stand-in outputs", "one chain state per process: the clean reference node and the node under test are sequential incarnations", "blocks come from the harness author: chains of 3-30 (thorough 60) blocks over several epochs with tickets, preimages, disputes (also against pending reports), assurances, guarantees (current and previous rotation, dependencies between packages) and the accumulation of the reports that become available by real PVM runs of small generated service programs (fetch, write, checkpoint, assign, transfer, forget + solicit of one preimage that thereby runs through its whole life cycle, new - services born on chain -, yield)"},
@@ -262,7 +263,7 @@ var checks = []Check{
 		Quick:        tierCfg{budget: 150, maxRuns: 60, shrink: 100},
 		Thorough:     tierCfg{budget: 1200, shrink: 1000},
 		RunTimeoutS:  240,
-		Rule:         "one evaluation = one generated history: synthetic tiny genesis (6 trivial-seed validators - in two histories of three the staging / pending / active / previous sets hold them in different orders; 1-3 services whose identifiers come from a pool of special magnitudes and octet patterns, with storage (also entries whose state key has a chosen second octet), stored / solicited preimages incl. one blob solicited by several services; authorizer pools with duplicates, in half of the histories shared between the cores), an author-built block tree (slot gaps across epoch boundaries, tickets, preimages, disputes with real Ed25519 votes, forks), for every accepted block the reference validator records (author: +1 block, +tickets, +preimages, +preimage octets; assurers +1; guarantors +1; at an epoch change current becomes previous and is reset), service records (provided count/size from the preimage extrinsic) and all-zero core records when nothing is reported or available are compared with the exported state",
+		Rule:         "one evaluation = one generated history: synthetic tiny genesis (6 trivial-seed validators - in two histories of three the staging / pending / active / previous sets hold them in different orders; 1-3 services whose identifiers come from a pool of special magnitudes and octet patterns, with storage (also entries whose state key has a chosen second octet), stored / solicited preimages incl. one blob solicited by several services; one history in eight starts from a POPULOUS state: 40-300 further inert services, 40-300 storage entries and values / preimages of 4-100 KB under one service, long storage keys, judgement lists of 40-300 entries; authorizer pools with duplicates, in half of the histories shared between the cores), an author-built block tree (slot gaps across epoch boundaries, tickets, preimages, disputes with real Ed25519 votes, forks), for every accepted block the reference validator records (author: +1 block, +tickets, +preimages, +preimage octets; assurers +1; guarantors +1; at an epoch change current becomes previous and is reset), service records (provided count/size from the preimage extrinsic) and all-zero core records when nothing is reported or available are compared with the exported state",
 		Real:         []string{"internal/fuzz.FuzzServiceStub SetState / ImportBlock / GetState", "internal/stf.RunSTF with every stage (safrole, disputes, assurances, reports, accumulation, history, preimages, authorizations, statistics)", "internal/blockchain.ChainState commit / restore / prune, stores on the in-memory provider, leaf cache", "state codec (StateEncoder / StateKeyValsToState) and block codec on every delivery"},
 		Stub:         []string{vrfStub, "block author = harness code (fallback and ticket seals through the stand-in, real Ed25519 for disputes); it is not an oracle", "multi-node = sequential incarnations of the process-wide chain-state singleton separated by SetState"},
 		Assumptions:  []string{"the VRF is a stand-in: nothing about Bandersnatch is decided and ticket identifiers are stand-in outputs", "one chain state per process: the clean reference node and the node under test are sequential incarnations", "blocks come from the harness author: chains of 3-30 (thorough 60) blocks over several epochs with tickets, preimages, disputes (also against pending reports), assurances, guarantees (current and previous rotation, dependencies between packages) and the accumulation of the reports that become available by real PVM runs of small generated service programs (fetch, write, checkpoint, assign, transfer, forget + solicit of one preimage that thereby runs through its whole life cycle, new - services born on chain -, yield)"},
@@ -277,7 +278,7 @@ var checks = []Check{
 		Quick:        tierCfg{budget: 150, maxRuns: 60, shrink: 100},
 		Thorough:     tierCfg{budget: 1200, shrink: 1000},
 		RunTimeoutS:  240,
-		Rule:         "one evaluation = one generated history: synthetic tiny genesis (6 trivial-seed validators - in two histories of three the staging / pending / active / previous sets hold them in different orders; 1-3 services whose identifiers come from a pool of special magnitudes and octet patterns, with storage (also entries whose state key has a chosen second octet), stored / solicited preimages incl. one blob solicited by several services; authorizer pools with duplicates, in half of the histories shared between the cores), an author-built block tree (slot gaps across epoch boundaries, tickets, preimages, disputes with real Ed25519 votes, forks), dispute extrinsics carry verdicts of the three defined outcomes (2/3+1, 0, 1/3 positive votes) with real Ed25519 votes by current or previous-epoch validators and the culprits / faults they require; for every accepted block the reference judgement sets (pairwise disjoint, sorted, grown by exactly the new verdicts) and offender set (sorted, only growing) are compared with the exported state; a verdict with any other vote count must be rejected by a fresh node",
+		Rule:         "one evaluation = one generated history: synthetic tiny genesis (6 trivial-seed validators - in two histories of three the staging / pending / active / previous sets hold them in different orders; 1-3 services whose identifiers come from a pool of special magnitudes and octet patterns, with storage (also entries whose state key has a chosen second octet), stored / solicited preimages incl. one blob solicited by several services; one history in eight starts from a POPULOUS state: 40-300 further inert services, 40-300 storage entries and values / preimages of 4-100 KB under one service, long storage keys, judgement lists of 40-300 entries; authorizer pools with duplicates, in half of the histories shared between the cores), an author-built block tree (slot gaps across epoch boundaries, tickets, preimages, disputes with real Ed25519 votes, forks), dispute extrinsics carry verdicts of the three defined outcomes (2/3+1, 0, 1/3 positive votes) with real Ed25519 votes by current or previous-epoch validators and the culprits / faults they require; for every accepted block the reference judgement sets (pairwise disjoint, sorted, grown by exactly the new verdicts) and offender set (sorted, only growing) are compared with the exported state; a verdict with any other vote count must be rejected by a fresh node",
 		Real:         []string{"internal/fuzz.FuzzServiceStub SetState / ImportBlock / GetState", "internal/stf.RunSTF with every stage (safrole, disputes, assurances, reports, accumulation, history, preimages, authorizations, statistics)", "internal/blockchain.ChainState commit / restore / prune, stores on the in-memory provider, leaf cache", "state codec (StateEncoder / StateKeyValsToState) and block codec on every delivery"},
 		Stub:         []string{vrfStub, "block author = harness code (fallback and ticket seals through the stand-in, real Ed25519 for disputes); it is not an oracle", "multi-node = sequential incarnations of the process-wide chain-state singleton separated by SetState"},
 		Assumptions:  []string{"the VRF is a stand-in: nothing about Bandersnatch is decided and ticket identifiers are stand-in outputs", "one chain state per process: the clean reference node and the node under test are sequential incarnations", "blocks come from the harness author: chains of 3-30 (thorough 60) blocks over several epochs with tickets, preimages, disputes (also against pending reports), assurances, guarantees (current and previous rotation, dependencies between packages) and the accumulation of the reports that become available by real PVM runs of small generated service programs (fetch, write, checkpoint, assign, transfer, forget + solicit of one preimage that thereby runs through its whole life cycle, new - services born on chain -, yield)"},
@@ -292,7 +293,7 @@ var checks = []Check{
 		Quick:        tierCfg{budget: 150, maxRuns: 60, shrink: 100},
 		Thorough:     tierCfg{budget: 1200, shrink: 1000},
 		RunTimeoutS:  240,
-		Rule:         "one evaluation = one generated history: synthetic tiny genesis (6 trivial-seed validators - in two histories of three the staging / pending / active / previous sets hold them in different orders; 1-3 services whose identifiers come from a pool of special magnitudes and octet patterns, with storage (also entries whose state key has a chosen second octet), stored / solicited preimages incl. one blob solicited by several services; authorizer pools with duplicates, in half of the histories shared between the cores), an author-built block tree (slot gaps across epoch boundaries, tickets, preimages, disputes with real Ed25519 votes, forks), preimage extrinsics provide solicited-but-unprovided blobs; blocks with unsorted, duplicated, unsolicited or already-provided entries must be rejected by a fresh node; every accepted preimage must be stored with the block's slot as the single start of its availability",
+		Rule:         "one evaluation = one generated history: synthetic tiny genesis (6 trivial-seed validators - in two histories of three the staging / pending / active / previous sets hold them in different orders; 1-3 services whose identifiers come from a pool of special magnitudes and octet patterns, with storage (also entries whose state key has a chosen second octet), stored / solicited preimages incl. one blob solicited by several services; one history in eight starts from a POPULOUS state: 40-300 further inert services, 40-300 storage entries and values / preimages of 4-100 KB under one service, long storage keys, judgement lists of 40-300 entries; authorizer pools with duplicates, in half of the histories shared between the cores), an author-built block tree (slot gaps across epoch boundaries, tickets, preimages, disputes with real Ed25519 votes, forks), preimage extrinsics provide solicited-but-unprovided blobs; blocks with unsorted, duplicated, unsolicited or already-provided entries must be rejected by a fresh node; every accepted preimage must be stored with the block's slot as the single start of its availability",
 		Real:         []string{"internal/fuzz.FuzzServiceStub SetState / ImportBlock / GetState", "internal/stf.RunSTF with every stage (safrole, disputes, assurances, reports, accumulation, history, preimages, authorizations, statistics)", "internal/blockchain.ChainState commit / restore / prune, stores on the in-memory provider, leaf cache", "state codec (StateEncoder / StateKeyValsToState) and block codec on every delivery"},
 		Stub:         []string{vrfStub, "block author = harness code (fallback and ticket seals through the stand-in, real Ed25519 for disputes); it is not an oracle", "multi-node = sequential incarnations of the process-wide chain-state singleton separated by SetState"},
 		Assumptions:  []string{"the VRF is a stand-in: nothing about Bandersnatch is decided and ticket identifiers are stand-in outputs", "one chain state per process: the clean reference node and the node under test are sequential incarnations", "blocks come from the harness author: chains of 3-30 (thorough 60) blocks over several epochs with tickets, preimages, disputes (also against pending reports), assurances, guarantees (current and previous rotation, dependencies between packages) and the accumulation of the reports that become available by real PVM runs of small generated service programs (fetch, write, checkpoint, assign, transfer, forget + solicit of one preimage that thereby runs through its whole life cycle, new - services born on chain -, yield)"},
@@ -307,7 +308,7 @@ var checks = []Check{
 		Quick:        tierCfg{budget: 150, maxRuns: 60, shrink: 100},
 		Thorough:     tierCfg{budget: 1200, shrink: 1000},
 		RunTimeoutS:  240,
-		Rule:         "one evaluation = one generated history: synthetic tiny genesis (6 trivial-seed validators - in two histories of three the staging / pending / active / previous sets hold them in different orders; 1-3 services whose identifiers come from a pool of special magnitudes and octet patterns, with storage (also entries whose state key has a chosen second octet), stored / solicited preimages incl. one blob solicited by several services; authorizer pools with duplicates, in half of the histories shared between the cores), an author-built block tree (slot gaps across epoch boundaries, tickets, preimages, disputes with real Ed25519 votes, forks), for every accepted block the reference pool transition per core (prior pool minus the leftmost occurrence of each authorizer used by that core's guarantees, plus the queue entry selected by the slot, last O kept) is compared with the exported state",
+		Rule:         "one evaluation = one generated history: synthetic tiny genesis (6 trivial-seed validators - in two histories of three the staging / pending / active / previous sets hold them in different orders; 1-3 services whose identifiers come from a pool of special magnitudes and octet patterns, with storage (also entries whose state key has a chosen second octet), stored / solicited preimages incl. one blob solicited by several services; one history in eight starts from a POPULOUS state: 40-300 further inert services, 40-300 storage entries and values / preimages of 4-100 KB under one service, long storage keys, judgement lists of 40-300 entries; authorizer pools with duplicates, in half of the histories shared between the cores), an author-built block tree (slot gaps across epoch boundaries, tickets, preimages, disputes with real Ed25519 votes, forks), for every accepted block the reference pool transition per core (prior pool minus the leftmost occurrence of each authorizer used by that core's guarantees, plus the queue entry selected by the slot, last O kept) is compared with the exported state",
 		Real:         []string{"internal/fuzz.FuzzServiceStub SetState / ImportBlock / GetState", "internal/stf.RunSTF with every stage (safrole, disputes, assurances, reports, accumulation, history, preimages, authorizations, statistics)", "internal/blockchain.ChainState commit / restore / prune, stores on the in-memory provider, leaf cache", "state codec (StateEncoder / StateKeyValsToState) and block codec on every delivery"},
 		Stub:         []string{vrfStub, "block author = harness code (fallback and ticket seals through the stand-in, real Ed25519 for disputes); it is not an oracle", "multi-node = sequential incarnations of the process-wide chain-state singleton separated by SetState"},
 		Assumptions:  []string{"the VRF is a stand-in: nothing about Bandersnatch is decided and ticket identifiers are stand-in outputs", "one chain state per process: the clean reference node and the node under test are sequential incarnations", "blocks come from the harness author: chains of 3-30 (thorough 60) blocks over several epochs with tickets, preimages, disputes (also against pending reports), assurances, guarantees (current and previous rotation, dependencies between packages) and the accumulation of the reports that become available by real PVM runs of small generated service programs (fetch, write, checkpoint, assign, transfer, forget + solicit of one preimage that thereby runs through its whole life cycle, new - services born on chain -, yield)"},
@@ -403,7 +404,7 @@ var checks = []Check{
 		LevelNote:    "weak fit: without an abort the property is a pure function; claimed for metering at abort points and reported usage",
 		Technique:    "deterministic simulation of the accumulation transaction: seeded host-call histories with injected abort points (gas exhaustion at tape-chosen / exhaustively swept step boundaries, traps, unreadable pointers), per-step reference-model oracles in exact integers, tape shrinking + fresh-process replay",
 		DesignRef:    "DESIGN.md §4 H3, §5 C04",
-		ExpectProbes: []string{"probe:exhaustive_gas_sweeps", "probe:oog_inside_host_call", "fault:gas_limit_abort_point", "probe:filler_instructions_between_host_calls", "probe:reported_gas_checked_after_trap", "probe:reported_gas_checked_after_memory_fault", "probe:refine_exhaustive_gas_sweeps", "probe:refine_call_charge_checked_9", "probe:refine_call_charge_checked_12"},
+		ExpectProbes: []string{"probe:exhaustive_gas_sweeps", "probe:block_longer_than_65536_instructions", "probe:oog_inside_host_call", "fault:gas_limit_abort_point", "probe:filler_instructions_between_host_calls", "probe:reported_gas_checked_after_trap", "probe:reported_gas_checked_after_memory_fault", "probe:refine_exhaustive_gas_sweeps", "probe:refine_call_charge_checked_9", "probe:refine_call_charge_checked_12"},
 	},
 	{
 		Property: "C16", Harness: "h5cache", Level: "exploration",
@@ -417,7 +418,7 @@ var checks = []Check{
 		LevelNote:    "types.MaxKeyLevelCacheSize is a package variable and is varied by the harness; entries <= ~50 per history",
 		Technique:    "deterministic simulation: seeded operation histories on a long-lived component with randomised tuning knob, differential oracle (cached vs from-scratch), tape shrinking + fresh-process replay",
 		DesignRef:    "DESIGN.md §4 H5, §5 C16",
-		ExpectProbes: []string{"probe:value_changed_same_length", "probe:embedded_hashed_flip", "probe:key_reinserted", "probe:value_padded_or_trimmed_with_zero_octets", "probe:value_one_octet_changed", "fault:cache_cleared", "fault:instance_reset", "probe:capacity_exceeded_during_walk"},
+		ExpectProbes: []string{"probe:value_changed_same_length", "probe:embedded_hashed_flip", "probe:key_reinserted", "probe:value_padded_or_trimmed_with_zero_octets", "probe:value_one_octet_changed", "probe:hundreds_of_entries_all_cached", "fault:cache_cleared", "fault:instance_reset", "probe:capacity_exceeded_during_walk"},
 	},
 	{
 		Property: "C28", Harness: "h1tel", Level: "exploration",
